@@ -25,6 +25,7 @@ verus! {
 //@include env/cache_spec.vs
 //@include env/cache_lemmas.vs
 //@include env/remove_lemmas.vs
+//@include env/insert_lemmas.vs
 
 //@item model/src/network.rs Network::config
 //@retname r
@@ -480,32 +481,12 @@ pub open spec fn ends_ok(net: &Network, s: Seq<NodeIdx>) -> bool {
     -> (c: Cost) requires self.wf(), self.network.has(*n) ensures c as int == self.network.node_cost(*n)
 //@end
 
-//@item solution/src/path.rs Path::new_trusted : trusted
-//@retname r
-//@sig
-    requires nw.wf(), all_in_net(&nw, node_sequence@),
-    ensures
-        all_depots(&nw, node_sequence@) ==> r is None,
-        !all_depots(&nw, node_sequence@) ==> r is Some && r.unwrap().node_sequence@ == node_sequence@ && r.unwrap().network == nw,
-//@end
-//@item solution/src/tour.rs Tour::position_of : trusted
-//@retname r
-//@sig
-    requires self.wf(), self.network.has(node),
-    ensures
-        r is Ok ==> 0 <= r.unwrap() < self.len() && self.nodes@[r.unwrap() as int] == node,
-        r is Err ==> !self.nodes@.contains(node),
-//@end
+//@include env/tour_stubs.vs
+//@include-trusted env/tour_pos_fns.vs
 //@item solution/src/tour.rs Tour::is_dummy
 //@retname r
 //@sig
     ensures r == self.is_dummy,
-//@end
-//@item solution/src/tour.rs Tour::check_if_sequence_is_removable : trusted
-//@retname r
-//@sig
-    requires self.wf(), start_position < self.len(), end_position < self.len(),
-    ensures r is Ok <==> self.removable(start_position as int, end_position as int),
 //@end
 
 //@item solution/src/tour/modifications.rs Tour::remove
@@ -588,6 +569,163 @@ pub open spec fn ends_ok(net: &Network, s: Seq<NodeIdx>) -> bool {
             let s = pos_seg_start as int; let e1 = pos_seg_end + 1;
             assert(visits_maintenance == self.network.spec_visits_maintenance(self.rest(s, e1)));
         }
+//@attr verifier::rlimit(100)
+//@end
+
+// ---- Path accessors ------------------------------------------------------------------------------
+//@item solution/src/path.rs Path::first
+//@retname r
+//@sig
+    requires self.node_sequence@.len() >= 1,
+    ensures r == self.node_sequence@[0],
+//@end
+//@item solution/src/path.rs Path::last
+//@retname r
+//@sig
+    requires self.node_sequence@.len() >= 1,
+    ensures r == self.node_sequence@[self.node_sequence@.len() - 1],
+//@end
+//@item solution/src/path.rs Path::consume
+//@retname r
+//@sig
+    ensures r@ == self.node_sequence@,
+//@end
+//@item solution/src/path.rs Path::iter : trusted
+//@ret SeqIter<NodeIdx>
+//@sig
+    ensures r@ == self.node_sequence@,
+//@end
+//@item solution/src/path.rs Path::drop_first
+//@retname r
+//@sig
+    requires self.network.wf(), self.node_sequence@.len() >= 1, all_in_net(&self.network, self.node_sequence@),
+    ensures
+        all_depots(&self.network, self.node_sequence@.subrange(1, self.node_sequence@.len() as int)) ==> r is None,
+        !all_depots(&self.network, self.node_sequence@.subrange(1, self.node_sequence@.len() as int)) ==> r is Some
+            && r.unwrap().node_sequence@ == self.node_sequence@.subrange(1, self.node_sequence@.len() as int) && r.unwrap().network == self.network,
+//@first
+        proof {
+            let t = self.node_sequence@.subrange(1, self.node_sequence@.len() as int);
+            assert forall|i: int| 0 <= i < t.len() implies #[trigger] self.network.has(t[i]) by { assert(self.network.has(self.node_sequence@[i + 1])); }
+        }
+//@end
+//@item solution/src/path.rs Path::drop_last
+//@retname r
+//@sig
+    requires self.network.wf(), self.node_sequence@.len() >= 1, all_in_net(&self.network, self.node_sequence@),
+    ensures
+        all_depots(&self.network, self.node_sequence@.subrange(0, self.node_sequence@.len() - 1)) ==> r is None,
+        !all_depots(&self.network, self.node_sequence@.subrange(0, self.node_sequence@.len() - 1)) ==> r is Some
+            && r.unwrap().node_sequence@ == self.node_sequence@.subrange(0, self.node_sequence@.len() - 1) && r.unwrap().network == self.network,
+//@first
+        proof {
+            let t = self.node_sequence@.subrange(0, self.node_sequence@.len() - 1);
+            assert forall|i: int| 0 <= i < t.len() implies #[trigger] self.network.has(t[i]) by { assert(self.network.has(self.node_sequence@[i])); }
+        }
+//@end
+
+//@item solution/src/tour/modifications.rs Tour::insert_path
+//@retname r
+//@viter
+//@viter-skip path
+//@sig
+    requires self.wf(), self.caches_ok(), tour_len_ok(self.nodes@),
+        path.network == self.network, tour_len_ok(path.node_sequence@),
+        // A-path: the inserted path is a path of the network (connected) with an activity
+        path_shape(&self.network, path.node_sequence@),
+    ensures ({
+        let n = eff_path(self, path.node_sequence@);
+        exists|s: int, e: int| {
+            &&& ins_positions(self, n, s, e) && 0 <= s <= e <= self.len()
+            // C12: longest prefix whose last node reaches the path + the whole path + longest suffix the path reaches
+            &&& r.0.nodes@ == #[trigger] self.spliced(s, e, n) // @obl C12.insert_path.prefix_path_suffix
+            // C12: reports exactly the dropped nodes
+            &&& (all_depots(&self.network, self.mid(s, e)) ==> r.1 is None)
+            &&& (!all_depots(&self.network, self.mid(s, e)) ==> r.1 is Some && r.1.unwrap().node_sequence@ == self.mid(s, e)) // @obl C12.insert_path.reports_exactly_dropped
+        }
+    }),
+        r.0.is_dummy == self.is_dummy && r.0.network == self.network,
+        r.0.wf(), // @obl C01.insert_path.wf
+        r.0.caches_ok(), // @obl C09.insert_path.caches
+//@closure-params 0
+    NodeIdx
+//@closure 0
+    -> (b: bool) requires self.network.has(n) ensures b == (self.network.sp_node(n) is Maintenance)
+//@closure-params 1
+    usize
+//@closure 1
+    -> (d: Duration) requires i < self.len(), self.network.has(self.nodes@[i as int]), self.network.sp_node(self.nodes@[i as int]).wf() ensures d == self.network.sp_node(self.nodes@[i as int]).sp_duration()
+//@closure-params 2
+    &NodeIdx
+//@closure 2
+    -> (d: Duration) requires self.network.has(*n), self.network.sp_node(*n).wf() ensures d == self.network.sp_node(*n).sp_duration()
+//@closure-params 3
+    usize
+//@closure 3
+    -> (d: Distance) requires i < self.len(), self.network.has(self.nodes@[i as int]) ensures d == self.network.sp_node(self.nodes@[i as int]).sp_travel_distance()
+//@closure-params 4
+    &NodeIdx
+//@closure 4
+    -> (d: Distance) requires self.network.has(*n) ensures d == self.network.sp_node(*n).sp_travel_distance()
+//@closure-params 5
+    &NodeIdx
+//@closure 5
+    -> (b: bool) requires self.network.has(*n) ensures b == (self.network.sp_node(*n) is Maintenance)
+//@closure-params 6
+    &NodeIdx
+//@closure 6
+    -> (b: bool) requires self.network.has(*n) ensures b == (self.network.sp_node(*n) is Maintenance)
+//@first
+        let ghost p0 = path.node_sequence@;
+        proof { lemma_strip(&self.network, p0); }
+//@before "let new_path_contains_maintenace"
+        assert(path.node_sequence@ == eff_path(self, p0) && path.network == self.network);
+        proof {
+            assert(path_shape(&self.network, path.node_sequence@));
+            assert(self.is_dummy ==> no_depot(&self.network, path.node_sequence@));
+            assert(path.node_sequence@.len() <= p0.len());
+        }
+//@before "let segment"
+        let ghost n = new_nodes@;
+//@before "let new_useful_duration"
+        proof {
+            let s = start_pos as int; let e = end_pos as int;
+            lemma_insert_wf(self, n, s, e);
+            lemma_remove_sums_visible(self, s, e);
+            lemma_useful_duration_sum(&self.network, n);
+            lemma_service_distance_sum(&self.network, n);
+            assert forall|i: int| 0 <= i < n.len() implies self.network.has(#[trigger] n[i]) && self.network.sp_node(n[i]).wf() by {
+                assert(self.network.has(n[i])); lemma_node_facts(&self.network, n[i]);
+            }
+            lemma_insert_useful(self, s, e, n);
+        }
+//@before "let new_service_distance"
+        assert(new_useful_duration == self.network.spec_useful_duration(self.spliced(start_pos as int, end_pos as int, n)));
+        proof { lemma_insert_service(self, start_pos as int, end_pos as int, n); }
+//@before "let new_dead_head_distance = self"
+        assert(new_service_distance == self.network.spec_service_distance(self.spliced(start_pos as int, end_pos as int, n)));
+        proof { lemma_insert_dhd(self, start_pos as int, end_pos as int, n); }
+//@before "let new_costs"
+        assert(self.dead_head_distance is Distance ==> new_dead_head_distance == self.network.spec_dead_head_distance(self.spliced(start_pos as int, end_pos as int, n)));
+        proof { lemma_insert_costs(self, start_pos as int, end_pos as int, n); }
+//@before "let mut new_tour_nodes"
+        assert(new_costs as int == self.network.spec_costs(self.spliced(start_pos as int, end_pos as int, n)));
+//@before "let new_dead_head_distance = if"
+        proof {
+            let s = start_pos as int; let e = end_pos as int;
+            assert(new_tour_nodes@ == self.spliced(s, e, n) && removed_nodes@ == self.mid(s, e)) by {
+                reveal(Tour::spliced); reveal(Tour::mid);
+                assert(new_tour_nodes@ =~= self.nodes@.subrange(0, s) + n + self.nodes@.subrange(e, self.len()));
+                assert(removed_nodes@ =~= self.nodes@.subrange(s, e));
+            }
+            lemma_cuts(self, s, e);
+            lemma_spliced(self, s, e, n);
+        }
+//@before "let visits_maintenance"
+        assert(new_dead_head_distance == self.network.spec_dead_head_distance(self.spliced(start_pos as int, end_pos as int, n)));
+        proof { lemma_insert_vm(self, start_pos as int, end_pos as int, n); }
+//@before "( Tour::new_precomputed("
+        assert(visits_maintenance == self.network.spec_visits_maintenance(self.spliced(start_pos as int, end_pos as int, n)));
 //@attr verifier::rlimit(100)
 //@end
 } // verus!
